@@ -8,7 +8,7 @@ SHORTC = ["a-z", "A-Z", "0-9", "-", "_"]
 VERC = ["a-z", "A-Z", "0-9", "."]
 
 
-def create_decode(sym, rtype, layered, bp_type, ctype, n_short, n_ver, respin_max, variants=()):
+def create_decode(sym, rtype, layered, bp_type, ctype, n_short, n_ver, respin_max, variants=(), label=None):
     """the created id starts with short-version[-type], validates, and decodes to (date, type, respin).
     variants: top-level variants of the compose (the id of a RHEL 5 compose on RHEL 5 carries the first of Client / Server)"""
     ci = ComposeInfo()
@@ -35,6 +35,10 @@ def create_decode(sym, rtype, layered, bp_type, ctype, n_short, n_ver, respin_ma
     ci.compose.date = date
     ci.compose.type = ctype
     ci.compose.respin = respin
+    if label is not None:
+        # a milestone label, final or not (the final release candidate is the GA compose): the id says what the type field says
+        ci.compose.label = label
+        ci.compose.final = sym.bool("final")
     try:
         ci.release.validate()
         if layered:
@@ -132,6 +136,12 @@ def jobs(tier, seed):
             if big or (vi + ci_ + seed) % 2 == 0:
                 out.append({"harness": "create_decode", "params": {"rtype": "ga", "layered": True, "bp_type": "ga", "ctype": ct, "n_short": 4, "n_ver": 3,
                                                                   "respin_max": 999, "variants": variants}})
+    # composes that carry a milestone label, final or not
+    for li, label in enumerate(("RC-1.0", "Beta-2.3", "Alpha-1.1")):
+        for ci_, ct in enumerate(ctypes):
+            if big or (li + ci_ + seed) % 2 == 0 or label == "RC-1.0":
+                out.append({"harness": "create_decode", "params": {"rtype": ["ga", "updates"][li % 2], "layered": False, "bp_type": None, "ctype": ct, "n_short": 3, "n_ver": 3,
+                                                                  "respin_max": 999, "label": label}})
     for suf, ct in SUFFIXES:
         for wr in (False, True):
             out.append({"harness": "decode_documented", "params": {"suffix": suf, "ctype": ct, "with_respin": wr, "n_prefix": 12 if big else 8}})
@@ -147,6 +157,7 @@ def jobs(tier, seed):
 META = {
     "expected_covers": {"create_decode": ["created", "decoded"], "decode_documented": ["decoded"], "decode_unknown": ["called"], "legacy_reader": ["loaded", "rewritten"]},
     "assumptions": [
+        "composes with a milestone label (RC / Beta / Alpha) whose 'final' flag is symbolic",
         "composes with top-level variants (Server / Client+Workstation / Everything+Server / none) and layered releases with 4-character short names, which puts the "
         "RHEL 5 on RHEL 5 id format inside the bound",
         "release short names over [A-Za-z0-9_-], versions over [A-Za-z0-9.] accepted by the release validators; dates are 8 ASCII digits; respin in [0, 10^8)",
